@@ -21,6 +21,8 @@ pub struct Feat {
     pub fea: Option<String>,                   // features.fea
     pub data: Vec<(String, Vec<u8>)>,          // data/<relative path>
     pub images: Vec<(String, Vec<u8>)>,        // images/<name>
+    pub empty_dirs: Vec<String>,               // empty directories, relative to the UFO (data/x, images/y)
+    pub symlinks: Vec<String>,                 // symbolic links (to a file of the UFO), relative to the UFO
 }
 
 #[derive(Clone, Debug)]
@@ -34,7 +36,8 @@ fn j_feat(f: &Feat) -> serde_json::Value {
         "blocks": f.blocks.as_ref().map(|b| b.iter().map(|(k, v)| serde_json::json!([k, v])).collect::<Vec<_>>()),
         "fea": f.fea,
         "data": f.data.iter().map(|(k, v)| serde_json::json!([k, v])).collect::<Vec<_>>(),
-        "images": f.images.iter().map(|(k, v)| serde_json::json!([k, v])).collect::<Vec<_>>()})
+        "images": f.images.iter().map(|(k, v)| serde_json::json!([k, v])).collect::<Vec<_>>(),
+        "empty_dirs": f.empty_dirs, "symlinks": f.symlinks})
 }
 fn feat_from(v: &serde_json::Value) -> Feat {
     Feat {
@@ -46,6 +49,8 @@ fn feat_from(v: &serde_json::Value) -> Feat {
         fea: v["fea"].as_str().map(|s| s.to_string()),
         data: store_from(&v["data"]),
         images: store_from(&v["images"]),
+        empty_dirs: v["empty_dirs"].as_array().map(|a| a.iter().filter_map(|x| x.as_str().map(|s| s.to_string())).collect()).unwrap_or_default(),
+        symlinks: v["symlinks"].as_array().map(|a| a.iter().filter_map(|x| x.as_str().map(|s| s.to_string())).collect()).unwrap_or_default(),
     }
 }
 fn store_from(v: &serde_json::Value) -> Vec<(String, Vec<u8>)> {
@@ -105,6 +110,15 @@ fn write_extra(ufo: &Path, f: &Feat, shuffle: u64) {
             std::fs::create_dir_all(p.parent().unwrap()).unwrap();
             std::fs::write(&p, v).unwrap();
         }
+    }
+    for d in &f.empty_dirs {
+        std::fs::create_dir_all(ufo.join(d)).unwrap();
+    }
+    for l in &f.symlinks {
+        let p = ufo.join(l);
+        std::fs::create_dir_all(p.parent().unwrap()).unwrap();
+        #[cfg(unix)]
+        let _ = std::os::unix::fs::symlink(ufo.join("metainfo.plist"), &p);
     }
 }
 
@@ -401,11 +415,17 @@ pub fn gen_case(seed: u64, idx: u64) -> Case10 {
         fea: if r.chance(1, 3) { Some("# features.fea\n".to_string()) } else { None },
         data: {
             // pairwise distinct, prefix-free keys, some nested (the store writes them in HashMap order)
-            const DK: [&str; 6] = ["a.txt", "b/c.bin", "b/d/e.txt", "f/g.txt", "h.bin", "b/d/i.txt"];
+            // ... and names / directory names that are equal ignoring (ASCII or Unicode) case:
+            // distinct files on a case-sensitive file system, distinct keys of the store
+            const DK: [&str; 14] = [
+                "a.txt", "b/c.bin", "b/d/e.txt", "f/g.txt", "h.bin", "b/d/i.txt", "readme.txt", "README.txt", "ReadMe.txt",
+                "Sub/x.txt", "sub/x.txt", "SUB/X.TXT", "\u{e9}.txt", "\u{c9}.txt",
+            ];
             let mut v = vec![];
-            if r.chance(1, 2) {
+            if r.chance(2, 3) {
+                let case_heavy = r.chance(1, 2);
                 for (i, k) in DK.iter().enumerate() {
-                    if r.chance(1, 2) {
+                    if r.chance(if case_heavy && i >= 6 { 4 } else { 1 }, if case_heavy && i >= 6 { 5 } else { 2 }) {
                         v.push((k.to_string(), vec![i as u8 + 65; 1 + r.below(4) as usize]));
                     }
                 }
@@ -415,13 +435,30 @@ pub fn gen_case(seed: u64, idx: u64) -> Case10 {
         images: {
             let mut v = vec![];
             if r.chance(1, 3) {
-                for k in ["i1.png", "i2.png", "i3.png"] {
+                for k in ["i1.png", "i2.png", "i3.png", "a.png", "A.PNG", "A.png", "\u{e9}.png", "\u{c9}.png"] {
                     if r.chance(1, 2) {
                         let mut b = vec![0x89, b'P', b'N', b'G', 0x0d, 0x0a, 0x1a, 0x0a];
                         b.push(r.below(256) as u8);
                         v.push((k.to_string(), b));
                     }
                 }
+            }
+            v
+        },
+        empty_dirs: {
+            let mut v = vec![];
+            if r.chance(1, 8) {
+                v.push(r.pick(&["data/empty", "data/Sub/Empty", "data"]).to_string());
+            }
+            if r.chance(1, 30) {
+                v.push("images/sub".to_string()); // makes the load fail (Subdir), the same way every time
+            }
+            v
+        },
+        symlinks: {
+            let mut v = vec![];
+            if r.chance(1, 25) {
+                v.push(r.pick(&["data/link.txt", "data/Sub/LINK", "images/link.png"]).to_string());
             }
             v
         },
@@ -924,7 +961,7 @@ pub fn main(a: &Args) {
                 e3.render(&mut cases, &mut it);
                 let _ = write!(cases, ";EI {}]", it.name(ft));
                 // the two store-writing loops: entries as written into the UFO (generated cases only)
-                let generated = d.label.starts_with("generated");
+                let generated = d.label.starts_with("generated") && d.loaded;
                 let no: Vec<(String, Vec<u8>)> = vec![];
                 let noobs = StoreObs::default();
                 let ds = render_store(if generated { &c.feat.data } else { &no }, if generated { &d.data_obs } else { &noobs }, &mut it);
